@@ -69,6 +69,13 @@ RULE = (
     "keyword-like words ('required', 'if', 'true', 'for', 'nil'), endblock names spelled "
     "independently, `required` after each spelling, whitespace-control markers on the "
     "block tags, {% liquid %} line form, extends targets quoted both ways; "
+    "reuse = ONE leaf Template object rendered 3-5 times (sync/async alternating) while "
+    "the loader's universe changes between renders (mid body replaced, mid re-parented, "
+    "mid becomes a root, root body replaced, root gains a parent, restored) and with a "
+    "context-aware loader choosing the root by a `theme` render variable - each render "
+    "must equal the model's answer for the universe at that moment; the spelling variants "
+    "also write extends names as bare words and bind every template / block name in the "
+    "render data to other template names, a missing name and non-strings; "
     "data d = <D&\"'> are added for ALL ctl cases, every 4th case that uses block.super "
     "and every 16th case (block bodies always contain literal < and >); samp = seeded random chains of depth 2..8 (mostly <= 4) over 3 names with "
     "random nesting, if/for wrappers, block.super once/twice, variable reads.  "
@@ -396,6 +403,7 @@ class Runner:
         self.standalone_participated = False
         self.case_no = 0
         self._in_boxnc_probe = False
+        self.bound_base_data: Any = None
         self.style_cur: Any = None
         self.esc_cur = False
         self.what_prefix = ""
@@ -584,6 +592,18 @@ class Runner:
             what = self.refine(bad[m0], prog, entry, data, obs[m0])
         if len(bad) < len(modes) or len(set(bad.values())) > 1:
             what += "@" + ",".join(m for m in modes if m in bad)
+        if self.bound_base_data is not None and not self._in_boxnc_probe:
+            # counterfactual: the same sources rendered WITHOUT the data that binds the
+            # written template / block names; right there => a name was read as a variable
+            base_data, self.bound_base_data = self.bound_base_data, None
+            self._in_boxnc_probe = True
+            try:
+                w2, _, _ = self.evaluate(prog, entry, base_data, esc)
+            finally:
+                self._in_boxnc_probe = False
+                self.bound_base_data = base_data
+            if w2 is None:
+                what = "written-name-resolved-through-render-data"
         if not self._in_boxnc_probe and any(
                 it[0] == "boxnc" for items in prog.values() for it, _ in M.walk(items)):
             # counterfactual: the same program with the custom tag that DOES report its
@@ -648,18 +668,35 @@ class Runner:
             v = n // every
             p3 = M.rename_blocks(prog, EXOTIC_NAMES[v % len(EXOTIC_NAMES)]) if v % 2 else prog
             self.what_prefix = "" if key else "spelling:"
-            self.style_cur = (v, not self.ws_cur)
+            self.style_cur = (v, not self.ws_cur, True)
             M.set_style(self.style_cur)
+            # ... and rendered with data that binds the very names written in the
+            # templates (template names, block names) to OTHER template names, a missing
+            # name and non-strings: names are names, never variables
+            self.bound_base_data = dict(data)
+            tnames = list(prog)
+            bnames = sorted({b[1] for items in p3.values() for b in M.block_defs(items)})
+            vals = [*tnames, "no-such-template", 7, ["t0"], ""]
+            data = dict(data)
+            for j, nm in enumerate([*tnames, *bnames]):
+                if nm not in data and nm.isidentifier():
+                    val = vals[(v + 3 * j + 1) % len(vals)]
+                    data[nm] = val if val != nm else "no-such-template"
             try:
                 self.ctx.count("spelling_cases")
+                self.ctx.count("name_bound_cases")
                 srcs = "".join(M.emit(p3).values())
                 if " required " in srcs or " required\n" in srcs:
                     self.ctx.count("spelling_cases_with_required")
                 if "block '" in srcs or 'block "' in srcs:
                     self.ctx.count("spelling_cases_quoted_name")
+                if "{% extends t" in srcs or "{% extends n" in srcs or "{% extends o" in srcs or (
+                        "{% extends g" in srcs or "{% extends h" in srcs):
+                    self.ctx.count("bare_extends_cases")
                 k3 = self._case_one(family + "+spelling", p3, entry, data)
             finally:
                 M.set_style(None)
+                self.bound_base_data = None
                 self.style_cur = None
                 self.what_prefix = ""
             key = key or k3
@@ -923,6 +960,111 @@ class Runner:
                     progress = True
                     break
         return cur
+
+    # -- reuse of one Template object --------------------------------------------------
+    def reuse(self, base: dict, muts: list[str], theme: bool = False) -> str | None:  # noqa: ARG002
+        """Load the leaf ONCE, then change its ancestors in the loader between renders.
+        Every render of the same object must equal what a fresh load renders now, i.e.
+        the model's answer for the universe as it is at that moment."""
+        ctx = self.ctx
+        loader = self.DictLoader(dict(M.emit(base)))
+        env = self.Environment(loader=loader)
+        leaf = env.get_template("t2")
+        cur = copy.deepcopy(base)
+        trail: list = []
+        for step, mut in enumerate(["initial", *muts]):
+            if step:
+                cur = _reuse_apply(base, cur, mut, step)
+                loader.templates.clear()
+                loader.templates.update(M.emit(cur))
+            E = M.expected(cur, "t2", DATA)
+            is_async = step % 2 == 1
+            self.sc.reset(BUDGET)
+            try:
+                text = drive(leaf.render_async(**DATA)) if is_async else leaf.render(**DATA)
+                a: tuple = ("out", text)
+            except StepBudgetExceeded:
+                a = ("budget",)
+            except self.LiquidError as e:
+                a = ("err", type(e).__name__, isinstance(e, self.TIE), isinstance(e, self.Req))
+            except Exception as e:  # noqa: BLE001
+                a = ("exc", type(e).__name__, str(e)[:100])
+            finally:
+                self.sc.disarm()
+            ctx.ev()
+            ctx.count("reuse_renders")
+            trail.append([mut, "async" if is_async else "sync", list(E.sig()), list(a[:2])])
+            w = self.judge(E, a)
+            if w:
+                # is a FRESH load right?  then the reused object remembered something
+                fresh = self._one(self.Environment(loader=self.DictLoader(dict(M.emit(cur)))),
+                                  "t2", DATA, is_async)
+                stale = self.judge(E, fresh) is None
+                key = ("reuse:template-object-remembers-ancestors" if stale else f"reuse:{w}")
+                ctx.violation(key, f"after {[t[0] for t in trail]}: expected {E.sig()!r}, the "
+                              f"reused leaf object rendered {a[:2]!r}, a fresh load {fresh[:2]!r}",
+                              {"family": "reuse", "base": base, "mutations": muts, "trail": trail,
+                               "sources_now": M.emit(cur)})
+                return key
+        return None
+
+    def reuse_theme(self, cfg: tuple, seq: list[str]) -> str | None:
+        ctx = self.ctx
+        DictLoader = self.DictLoader
+        progs = {}
+        for th in ("light", "dark"):
+            p, _ = build_chain((cfg, ("flat", "super", "super")))
+            p["t0"] = [["t", f"{th}:"], *p["t0"]]
+            progs[th] = p
+
+        class ThemeLoader(DictLoader):
+            def _name(self, name, context):  # noqa: ANN001, ANN202
+                if name == "t0" and context is not None:
+                    return f"{context.resolve('theme', default='light')}/t0"
+                return name
+
+            def get_source(self, env, template_name, *, context=None, **kwargs):  # noqa: ANN001, ANN003
+                return super().get_source(env, self._name(template_name, context),
+                                          context=context, **kwargs)
+
+            async def get_source_async(self, env, template_name, *, context=None, **kwargs):  # noqa: ANN001, ANN003
+                return super().get_source(env, self._name(template_name, context),
+                                          context=context, **kwargs)
+
+        src = {"t1": M.emit(progs["light"])["t1"],
+               "light/t0": M.emit(progs["light"])["t0"], "dark/t0": M.emit(progs["dark"])["t0"]}
+        env = self.Environment(loader=ThemeLoader(src))
+        leaf = env.get_template("t1")
+        trail = []
+        for step, th in enumerate(seq):
+            data = {**DATA, "theme": th}
+            E = M.expected(progs[th], "t1", data)
+            a = self._render_obj(leaf, data, step % 2 == 1)
+            ctx.ev()
+            ctx.count("reuse_theme_renders")
+            trail.append([th, list(E.sig()), list(a[:2])])
+            if self.judge(E, a):
+                key = "reuse:template-object-remembers-ancestors"
+                ctx.violation(key, f"context-aware loader, themes {seq[: step + 1]}: expected "
+                              f"{E.sig()!r}, the reused leaf object rendered {a[:2]!r}",
+                              {"family": "reuse-theme", "cfg": list(cfg), "themes": seq,
+                               "trail": trail, "sources": src})
+                return key
+        return None
+
+    def _render_obj(self, tpl: Any, data: dict, is_async: bool) -> tuple:
+        self.sc.reset(BUDGET)
+        try:
+            text = drive(tpl.render_async(**data)) if is_async else tpl.render(**data)
+            return ("out", text)
+        except StepBudgetExceeded:
+            return ("budget",)
+        except self.LiquidError as e:
+            return ("err", type(e).__name__, isinstance(e, self.TIE), isinstance(e, self.Req))
+        except Exception as e:  # noqa: BLE001
+            return ("exc", type(e).__name__, str(e)[:100])
+        finally:
+            self.sc.disarm()
 
     # -- histories -----------------------------------------------------------------
     def _run_history(self, loader_cls: Any, sources: dict[str, str], steps: list, data: dict) -> list[tuple]:
@@ -2062,6 +2204,63 @@ def _fam_intr(r: Runner, spec: dict, ctx: Ctx) -> None:
 
 
 # ---------------------------------------------------------------------------
+# reuse: ONE leaf Template object rendered again and again while its ancestors change
+# ---------------------------------------------------------------------------
+
+REUSE_MUTATIONS = ("mid-body", "mid-reparent", "mid-becomes-root", "root-body", "restore",
+                   "mid-gains-grandparent")
+
+
+def reuse_cases(rng: random.Random, tier: str) -> Iterator[tuple[dict, list[str]]]:
+    n = 6 if tier == "quick" else 40
+    for c0 in REDUCED[:6]:
+        for c1 in REDUCED[:6]:
+            for _ in range(n):
+                prog, _entry = build_chain((c0, c1, ("flat", "super", "super")))
+                yield prog, [rng.choice(REUSE_MUTATIONS) for _ in range(rng.choice((2, 3, 4)))]
+
+
+def _reuse_apply(base: dict, cur: dict, mut: str, step: int) -> dict:
+    p = copy.deepcopy(cur)
+    alt_root = [["t", "ALT("], blk("A", "a", "plain"), ["t", "|"], blk("A", "b", "plain"), ["t", ")ALT"]]
+    if mut == "mid-body":
+        p["t1"] = [["x", (M.extends_of(p["t1"]) or ["t0"])[0]], ["t", "~m~"],
+                   blk(f"M{step}", "a", "super"), blk(f"M{step}", "b", "plain")]
+        if not M.extends_of(cur["t1"]):
+            p["t1"] = p["t1"][1:]
+    elif mut == "mid-reparent":
+        p["alt"] = alt_root
+        p["t1"] = [["x", "alt"], *[it for it in p["t1"] if it[0] != "x"]]
+    elif mut == "mid-becomes-root":
+        p["t1"] = [it for it in p["t1"] if it[0] != "x"]
+    elif mut == "root-body":
+        p["t0"] = [["t", f"R{step}("], blk(f"Z{step}", "a", "plain"), ["t", "|"],
+                   blk(f"Z{step}", "b", "plain"), ["t", ")"]]
+    elif mut == "mid-gains-grandparent":
+        p["alt"] = alt_root
+        p["t0"] = [["x", "alt"], ["t", "~g~"], *[it for it in p["t0"] if it[0] != "x"]]
+    else:
+        p = copy.deepcopy(base)
+    return p
+
+
+def _fam_reuse(r: Runner, spec: dict, ctx: Ctx) -> None:
+    rng = random.Random(f"{spec['seed']}:reuse")
+    last = None
+    for idx, (prog, muts) in enumerate(reuse_cases(rng, spec["tier"])):
+        if idx % spec["n"] != spec["i"]:
+            continue
+        r.reuse(prog, muts, theme=False)
+        last = (prog, muts)
+    # a context-aware loader that picks the parent by render data
+    for c in REDUCED[:6]:
+        for seq in (("light", "dark", "light"), ("dark", "dark", "light", "dark")):
+            r.reuse_theme(c, list(seq))
+    if last:
+        ctx.sample({"family": "reuse", "mutations": last[1], "sources": M.emit(last[0])})
+
+
+# ---------------------------------------------------------------------------
 # histories: several renders of DIFFERENT entries on ONE environment
 # ---------------------------------------------------------------------------
 
@@ -2138,7 +2337,7 @@ def _fam_hist(r: Runner, spec: dict, ctx: Ctx) -> None:
 FAMILIES = {"exh": _fam_exh, "ctl": _fam_ctl, "struct": _fam_struct, "cyc": _fam_cyc,
             "entry": _fam_entry, "samp": _fam_samp, "exh4": _fam_exh4, "hist": _fam_hist, "blank": _fam_blank,
             "cont": _fam_cont, "rel": _fam_rel,
-            "intr": _fam_intr}
+            "intr": _fam_intr, "reuse": _fam_reuse}
 
 # ---------------------------------------------------------------------------
 # framework interface
@@ -2171,6 +2370,7 @@ def shards(tier: str, seed: int) -> list[dict[str, Any]]:  # noqa: ARG001
         specs.append({"kind": "blank", "i": i, "n": 2})
     specs.append({"kind": "cont", "i": 0, "n": 1})
     specs.append({"kind": "intr", "i": 0, "n": 1})
+    specs.append({"kind": "reuse", "i": 0, "n": 1})
     n = 2 if q else 8
     for i in range(n):
         specs.append({"kind": "rel", "i": i, "n": n, "count": 350 if q else 4000})
@@ -2200,6 +2400,8 @@ def floors(tier: str) -> dict[str, int]:
         "cont_hidden_defects": 350,
         "cont_super_through_container": 200,
         "cases_intr": 140,
+        "reuse_renders": 600,
+        "reuse_theme_renders": 30,
         "intr_supers_after_interrupt": 300,
         "set:containers": 23,
         "rel_roots": 600 if q else 25_000,
@@ -2211,6 +2413,8 @@ def floors(tier: str) -> dict[str, int]:
         "set:blank_body_kinds": 6,
         "nosuppress_cases": 3_000,
         "spelling_cases": 6_000 if q else 80_000,
+        "name_bound_cases": 6_000 if q else 80_000,
+        "bare_extends_cases": 3_000 if q else 40_000,
         "spelling_cases_with_required": 2_000 if q else 20_000,
         "spelling_cases_quoted_name": 4_000 if q else 50_000,
         "path_named_chains": 3_000 if q else 50_000,
@@ -2268,6 +2472,17 @@ def replay(wit: dict[str, Any], ctx: Ctx) -> None:
             if cls and cls != "root-error":
                 r.relation(root)
             return
+        if wit.get("family") == "reuse":
+            print(f"replay C08: one leaf Template object, ancestors changed: {wit['mutations']}")
+            key = r.reuse(wit["base"], list(wit["mutations"]))
+            print(f"  verdict: {key or 'no violation'}")
+            for v in ctx.violations.values():
+                print("  " + v["what"])
+            return
+        if wit.get("family") == "reuse-theme":
+            key = r.reuse_theme(tuple(wit["cfg"]), list(wit["themes"]))
+            print(f"replay C08: context-aware loader, themes {wit['themes']}: {key or 'no violation'}")
+            return
         if wit.get("family") == "hist":
             prog, steps, data = wit["prog"], [list(x) for x in wit["steps"]], wit.get("data") or DATA
             print(f"replay C08: history on one Environment, loader={wit.get('loader')}")
@@ -2285,7 +2500,7 @@ def replay(wit: dict[str, Any], ctx: Ctx) -> None:
         r.esc_cur = bool(wit.get("esc"))
         r.nosup_cur = bool(wit.get("nosup"))
         if wit.get("style"):
-            M.set_style((int(wit["style"][0]), bool(wit["style"][1])))
+            M.set_style(tuple([int(wit["style"][0]), *[bool(x) for x in wit["style"][1:]]]))
         r.ws_cur = bool(wit.get("ws"))
         r.what_prefix = wit.get("what_prefix") or ""
         what, E, obs = r.evaluate(prog, entry, data)
